@@ -81,6 +81,21 @@ def make_namespace(T):
             print(t)
         return lambda f: f
 
+    async def ap(k, *toks):
+        T.append(k)
+        await asyncio.sleep(0)
+        for t in toks:
+            print(t)
+        return None
+
+    class actx(object):
+        async def __aenter__(self):
+            await asyncio.sleep(0)
+            return self
+
+        async def __aexit__(self, *a):
+            return False
+
     async def aw(k, *toks):
         T.append(k)
         for t in toks:
@@ -100,7 +115,7 @@ def make_namespace(T):
     def ctx():
         yield
 
-    return {'T': T, 'p': p, 'v': v, 'bad': bad, 'aw': aw, 'rz': rz, 'pd': pd, 'ctx': ctx, 'xdvhelp': help_,
+    return {'T': T, 'p': p, 'v': v, 'bad': bad, 'aw': aw, 'ap': ap, 'actx': actx, 'rz': rz, 'pd': pd, 'ctx': ctx, 'xdvhelp': help_,
             'ExitTestException': exceptions.ExitTestException}
 
 
@@ -414,7 +429,10 @@ def opts_to_config(opts):
     return {m[k]: v for k, v in opts}
 
 
-def run_case(prog, wants, cfg, rot, modpath=None, verbose=0):
+REPORT_STYLES = ['udiff', 'cdiff', 'ndiff', 'none', 'only_first_failure']
+
+
+def run_case(prog, wants, cfg, rot, modpath=None, verbose=0, reportchoice=None, colored=False):
     """Execute; returns observation dict."""
     from xdoctest import doctest_example
     if any(k == 'REQ' for k, v in cfg['opts']):
@@ -426,7 +444,9 @@ def run_case(prog, wants, cfg, rot, modpath=None, verbose=0):
         warnings.simplefilter('ignore')
         dt = doctest_example.DocTest(text, modpath=modpath, callname='case', mode=cfg['mode'])
         dt.config['default_runtime_state'] = opts_to_config(cfg['opts'])
-        dt.config['colored'] = False
+        dt.config['colored'] = colored
+        if reportchoice:
+            dt.config['reportchoice'] = reportchoice
         dt.global_namespace.update(make_namespace(T))
         old_stdout, old_stderr = sys.stdout, sys.stderr
         old_filters = list(warnings.filters)
@@ -653,7 +673,9 @@ def _replay_state(st, txt):
         modpath = None
         if not exp['cfg'].get('importOk', True):
             modpath = _JOB['failmods'][rot % len(_JOB['failmods'])]
-        obs = run_case(exp['prog'], wants, exp['cfg'], rot, modpath=modpath, verbose=verbose)
+        rotate = _JOB.get('verbose', 0) == 'rotate'
+        obs = run_case(exp['prog'], wants, exp['cfg'], rot, modpath=modpath, verbose=verbose,
+                       reportchoice=REPORT_STYLES[(rot // 4) % len(REPORT_STYLES)] if rotate else None, colored=rotate and rot % 3 == 0)
     bad = compare(exp, obs, wants)
     extra = _JOB['extra_check'](exp, obs, wants, rot) if _JOB.get('extra_check') else []
     bad = bad + extra
